@@ -66,8 +66,10 @@ EXPLANATION = ("Exhaustive sub-space (both tiers): ALL pairs (G,H) on a shared n
 TRUSTED_BASE = [
     "Coq 8.16.1 kernel + vm_compute (no native_compute); stdlib only",
     "hand-written models coq/model/C01_Model.v, C01_Opts.v (ITSConstruction options), C01_String.v (MolToGraph.transform, implicit_hydrogen, "
-    "GraphToMol, h_to_explicit on an ITS, rsmi_to_its / its_to_rsmi glue; uses get_rc of C02_Model.v) tied to synkit/Graph/ITS/{its_construction,its_decompose}.py, "
-    "synkit/IO/{chem_converter,mol_to_graph,graph_to_mol}.py, synkit/Graph/Hyrogen/_misc.py by the per-run correspondence",
+    "GraphToMol, h_to_explicit on an ITS, rsmi_to_its / its_to_rsmi glue; uses get_rc of C02_Model.v), C01_Attrs.v, C01_CleanWc.v, C01_Rsmi.v (the six "
+    "string functions on whole strings), C01_Nbrs.v (neighbors), C01_Conv.v (converter object), C01_G2M.v, C01_DecRaw.v (absent-attribute branches), "
+    "C01_Builders.v (legacy builders), C01_Rewrite.v / C01_Prem.v (executable hypothesis tests) tied to synkit/Graph/ITS/{its_construction,its_decompose}.py, "
+    "synkit/IO/{chem_converter,mol_to_graph,graph_to_mol}.py, synkit/Graph/Hyrogen/_misc.py, synkit/Chem/Molecule/atom_features.py (neighbors) by the per-run correspondence",
     "harness encoders harness/gen/c01_enc.py, c01_str.py (nx graph / RDKit Mol -> Gallina literal, half-unit bond orders, injective element "
     "interning; attributes -> tok; monkeypatched recording of the graphs its_to_rsmi passes to GraphToMol and of the preserve set)",
     "networkx Graph / copy.deepcopy / copy.copy semantics",
